@@ -6,7 +6,7 @@ Tie (C): real policy objects from cassandra/policies.py with real Host objects a
 exhaustively enumerated histories; state, distance() of every host and plans are compared with the model after
 EVERY event; the statement itself is checked on the implementation's plans by a Python oracle (lib/vf/lbp_impl.py).
 """
-import itertools, json, os
+import ast, itertools, json, os
 from vf import core
 from vf.impl import import_cluster
 from vf import lbp_impl as I, lbp_gen as G
@@ -41,7 +41,11 @@ def coq_base(spec):
     if spec['kind'] == 'rr':
         return 'BRR'
     if spec['kind'] == 'wl':
-        return '(BWL %s)' % zlist(spec['allowed'])
+        st = spec.get('wl_names') or [0] * len(spec['allowed'])
+        names = [a + 100 if st[j] else a for j, a in enumerate(spec['allowed'])]     # name 100+a: the short spelling of address a
+        addrs = spec.get('addrs') or list(range(len(spec['dcs'])))
+        return ('(BWL %s (fun n : Z => if 100 <=? n then [n - 100] else [n]) (fun h : Z => nth (Z.to_nat h) %s (-1)))'
+                % (zlist(names), zlist(addrs)))
     return '(BDCA %s %s %s)' % (zl(spec['local']), zl(spec['used']), zlist(spec.get('contact', [])))
 
 
@@ -82,6 +86,9 @@ def coq_case(spec, trace):
                 w = 'WBase'
             elif p['q'] == 'filter':
                 w = '(WFilter %s)' % pred
+            elif p['q'] == 'token':
+                w = '(WToken %s (fun h : Z => mem h %s) %s)' % ('true' if spec['ta']['routed'] else 'false', zlist(p['ups']),
+                                                               zlist(spec['ta']['replicas']))
             else:
                 t = p['target']
                 w = '(WDefault %s)' % ('(Some %d)' % t[0] if (t is not None and t[1]) else 'None')
@@ -95,11 +102,14 @@ def coq_case(spec, trace):
 EXH_SPECS = [
     # (spec, populate) pairs for the exhaustive scope: 4 hosts, DCs interleaved in the initial list, one host without a DC,
     # local_dc inferred late from contact point 1
-    ({'kind': 'dca', 'dcs': [1, 2, 1, 0], 'local': 0, 'used': 1, 'contact': [1, 3], 'pred': {'hosts': [0, 3], 'dc': 2}}, ['P', [0, 1, 2, 3], 1]),
-    ({'kind': 'dca', 'dcs': [1, 2, 1, 2], 'local': 1, 'used': 1, 'contact': [0], 'pred': {'hosts': [1], 'dc': 1}}, ['P', [0, 1, 2], 2]),
+    ({'kind': 'dca', 'dcs': [1, 2, 1, 0], 'local': 0, 'used': 1, 'contact': [1, 3], 'pred': {'hosts': [0, 3], 'dc': 2},
+      'ta': {'replicas': [2, 1, 3], 'routed': True, 'up': [True, True, None, True]}}, ['P', [0, 1, 2, 3], 1]),
+    ({'kind': 'dca', 'dcs': [1, 2, 1, 2], 'local': 1, 'used': 1, 'contact': [0], 'pred': {'hosts': [1], 'dc': 1},
+      'ta': {'replicas': [1, 0], 'routed': True, 'up': [None, True, True, True]}}, ['P', [0, 1, 2], 2]),
     ({'kind': 'dca', 'dcs': [0, 0, 0, 0], 'local': 0, 'used': 2, 'contact': [0, 1], 'pred': {'hosts': [0, 1, 2], 'dc': 0}}, ['P', [0, 1], 0]),
     ({'kind': 'rr', 'dcs': [1, 2, 1, 0], 'pred': {'hosts': [0, 2], 'dc': 0}}, ['P', [0, 1, 2], 1]),
-    ({'kind': 'wl', 'dcs': [1, 2, 1, 0], 'allowed': [0, 3], 'pred': {'hosts': [0, 1, 2, 3], 'dc': 0}}, ['P', [0, 1, 2], 1]),
+    ({'kind': 'wl', 'dcs': [1, 2, 1, 0], 'allowed': [0, 3], 'wl_names': [1, 0], 'addrs': [0, 1, 0, 3], 'pred': {'hosts': [0, 1, 2, 3], 'dc': 0},
+      'ta': {'replicas': [2, 0], 'routed': True, 'up': [False, True, True, True]}}, ['P', [0, 1, 2], 1]),
 ]
 
 
@@ -113,6 +123,54 @@ def corpus_cases():
                     c = json.load(f)
                 out.append((c['spec'], c['history'], c.get('targets')))
     return out
+
+
+LOCKED = {'DCAwareRoundRobinPolicy': ('_dc_live_hosts', ('on_up', 'on_down')),
+          'RoundRobinPolicy': ('_live_hosts', ('on_up', 'on_down', 'on_add', 'on_remove'))}
+
+
+def audit(src):
+    """Atomicity assumed by the model (one membership event = one step): inside the event handlers every read, write and delete
+    of the membership table happens lexically inside `with self._hosts_lock:`.  Returns the list of problems."""
+    probs = []
+    tree = ast.parse(src)
+    for cls in [n for n in tree.body if isinstance(n, ast.ClassDef) and n.name in LOCKED]:
+        field, meths = LOCKED[cls.name]
+        found = set()
+        for m in [n for n in cls.body if isinstance(n, ast.FunctionDef) and n.name in meths]:
+            found.add(m.name)
+
+            def walk(node, locked):
+                if isinstance(node, ast.With):
+                    holds = any(isinstance(i.context_expr, ast.Attribute) and i.context_expr.attr == '_hosts_lock' and
+                                isinstance(i.context_expr.value, ast.Name) and i.context_expr.value.id == 'self' for i in node.items)
+                    for c in node.body:
+                        walk(c, locked or holds)
+                    return
+                if isinstance(node, ast.Attribute) and node.attr == field and not locked:
+                    probs.append('%s.%s line %d: self.%s accessed outside `with self._hosts_lock`' % (cls.name, m.name, node.lineno, field))
+                for c in ast.iter_child_nodes(node):
+                    walk(c, locked)
+            for st in m.body:
+                walk(st, False)
+        for name in meths:
+            if name not in found:
+                probs.append('%s.%s not found' % (cls.name, name))
+    return probs
+
+
+RACE_EVENTS = 'UDAR'
+
+
+def run_race(ctx, spec, hist, e1, e2, tag):
+    def report(key, what, thm):
+        ctx.violation(key, '%s (spec %r, history %r, then %r racing %r: the second runs while the first waits for _hosts_lock)' % (what, spec, hist, e1, e2),
+                      case={'spec': spec, 'history': hist, 'race': [e1, e2]}, expected='statement of %s' % thm, actual=what, theorem=thm,
+                      kind='interleaving')
+    res = I.run_race(spec, hist, e1, e2, report)
+    ctx.case([spec, hist, e1, e2], nontrivial=res['fired'], sample=None)
+    ctx.count('source', tag)
+    ctx.count('race_hook_fired', 'yes' if res['fired'] else 'no')
 
 
 def run_one(ctx, spec, hist, targets, cases, meta, tag):
@@ -158,11 +216,41 @@ def run(ctx):
         for evs in G.exhaustive_histories(4, L):
             run_one(ctx, spec, [pop] + [list(e) for e in evs], [[1, True]], cases, meta, 'exhaustive')
             nex += 1
+    # two membership events delivered by two threads (atomicity of the handlers: audited on the source and forced here)
+    src = open(os.path.join(core.REPO, 'cassandra/policies.py')).read()
+    probs = audit(src)
+    ctx.extra['lock_audit'] = probs or 'ok: membership tables are read and written only inside `with self._hosts_lock` in the event handlers'
+    ctx.trust('lock-region audit of the on_up/on_down/on_add/on_remove handlers (checks/C21.py:audit)')
+    if probs:
+        ctx.proof_broken.append(('atomicity-audit', '; '.join(probs)))
+    nrace = 0
+    race_spec = {'kind': 'dca', 'dcs': [1, 1, 1, 2], 'local': 1, 'used': 2, 'contact': [], 'pred': {'hosts': [], 'dc': 0}}
+    for rspec in (race_spec, {'kind': 'rr', 'dcs': [1, 1, 1, 2], 'pred': {'hosts': [], 'dc': 0}}):
+        for a in range(4):
+            for b in range(4):
+                if a != b:
+                    for ka in RACE_EVENTS:
+                        for kb in RACE_EVENTS:
+                            run_race(ctx, rspec, [['P', [0, 3], 0]], [ka, a], [kb, b], 'race-exhaustive')
+                            nrace += 1
+    for _ in range(200 if ctx.tier == 'quick' else 3000):
+        spec = G.gen_spec(rng)
+        if spec['kind'] == 'dca' and spec['local'] == 0:
+            spec['local'] = rng.randint(1, 3)      # the source documents late local_dc inference as single-threaded (startup)
+        n = len(spec['dcs'])
+        if n < 2:
+            continue
+        hist = G.gen_history(rng, spec, rng.randint(0, 4))
+        a, b = rng.sample(range(n), 2)
+        run_race(ctx, spec, hist, [rng.choice(RACE_EVENTS), a], [rng.choice(RACE_EVENTS), b], 'race-random')
+        nrace += 1
     ctx.exhaustive = True
-    ctx.rule = ('random: policy kind/parameters/initial DCs (incl. hosts without a DC, late local_dc inference), populate + up to 7 events over '
+    ctx.rule = ('races: %d pairs of up/down/add/remove events for two different hosts, the second delivered entirely while the first waits for '
+                '_hosts_lock (all pairs over 4 hosts for a DC-aware and a round-robin policy + random ones), plans checked by the oracle; ' % nrace +'random: policy kind/parameters/initial DCs (incl. hosts without a DC, late local_dc inference), populate + up to 7 events over '
                 '<= 6 hosts x <= 3 DCs; exhaustive: for %d fixed (policy, populate) pairs over 4 hosts x 2 DCs EVERY sequence of %s events from '
                 '{up,down,add,remove,set-location dc1,set-location dc2} x 4 hosts (%d histories). After every event the state, distance() of '
-                'every host and three plans (policy itself, through HostFilterPolicy, through DefaultLoadBalancingPolicy with/without target) are '
+                'every host and the plans (policy itself, through HostFilterPolicy with truthy/falsy non-bool predicates, through DefaultLoadBalancingPolicy '
+                'with/without target, through TokenAwarePolicy with scripted replicas/is_up; white lists written as names, hosts sharing addresses) are '
                 'observed. Non-trivial = distinct history in which some plan has at least 2 hosts.' % (len(EXH_SPECS), '2 (thorough: 3 for three of the pairs)', nex))
     try:
         bad = ctx.coq_filter(['LBP'], '(fun b : bool => b)', cases, shard=500)
@@ -187,9 +275,17 @@ def replay(ctx, rp):
     import_cluster()
     case = rp.get('case') or {}
     if 'spec' not in case:
-        print('nothing to replay: %s' % rp.get('theorem'))
+        probs = audit(open(os.path.join(core.REPO, 'cassandra/policies.py')).read())
+        print('nothing to replay: %s; lock audit: %s' % (rp.get('theorem'), probs or 'ok'))
         return 1
     found = []
+    if case.get('race'):
+        res = I.run_race(case['spec'], case['history'], case['race'][0], case['race'][1], lambda key, what, thm: found.append((key, what, thm)))
+        print('after %r then %r racing %r: state %r plans %r' % (case['history'], case['race'][0], case['race'][1], res['state'], res['plans']))
+        for f in found:
+            print('  fails %s: %s' % (f[2], f[1]))
+        print(('VIOLATION property=C21 replay=%s' % ctx.replay_path) if found else 'not reproduced')
+        return 1 if found else 0
 
     def report(key, what, thm, step=None, query=None):
         found.append((key, what, thm, step, query))
